@@ -670,6 +670,82 @@ argument of the new filter's `Inherit` (the `reuse = false` of the model). -/
 theorem pipeline_reload_injects_every_filter :
     FactsC11.pipelineReloadInjectsEveryFilter = true ∧ FactsC11.pipelineReloadPrevLeaks = [] := by decide
 
+/-! ### The handler behind a (possibly cached) route is resolved per request -/
+
+/-- **For every history** of reloads, requests and changes of what the mux mapper answers (pipeline
+created / updated / deleted *without* a reload of the HTTPServer), whatever was requested before: the
+implementation-shaped semantics (`pin = false`: nothing about the handler is remembered with a
+route) serves every request exactly as the specification `mapServe` says — by the handler mapped
+at that time, 503 if there is none. -/
+theorem handler_resolved_per_request (ops : List MOp) :
+    ∀ (cur : HGen) (h : HMap) (pins : List (Mux.Req × String)),
+      mapServeImpl false cur h pins ops = mapServe cur h ops := by
+  induction ops with
+  | nil => intro _ _ _; rfl
+  | cons o rest ih =>
+    intro cur h pins
+    cases o with
+    | reload g => simp [mapServeImpl, mapServe, ih]
+    | set n t => simp [mapServeImpl, mapServe, ih]
+    | del n => simp [mapServeImpl, mapServe, ih]
+    | req q => simp [mapServeImpl, mapServe, ih]
+
+theorem lookup_hmapOf (tag : String) (bs : List String) (x : String) :
+    (bs.map fun b => (b, tag ++ ":" ++ b)).lookup x = if bs.contains x then some (tag ++ ":" ++ x) else none := by
+  induction bs with
+  | nil => simp
+  | cons b rest ih =>
+    by_cases hx : x = b
+    · subst hx; simp
+    · have : (x == b) = false := by simpa using hx
+      simp [List.lookup, this, ih, hx]
+
+/-- With the mapper of the generation itself, `serveMap` is `serve`. -/
+theorem serveMap_hmapOf (g : HGen) (q : HReq) : serveMap g.rules (hmapOf g.mapper) g.options q = serve g q := by
+  unfold serveMap serve serveFrom hmapOf
+  cases Mux.search g.rules.oracle g.rules.cfg q.q with
+  | code c => rfl
+  | path ri pi e =>
+    simp only [lookup_hmapOf]
+    by_cases hc : e.backend ∈ g.mapper.backends <;> simp [hc]
+
+/-- On histories without `set` / `del` the specification is the `histServe` of the reload histories. -/
+theorem mapServe_without_changes (cur : HGen) (ops : List (Sum HGen HReq)) :
+    mapServe cur (hmapOf cur.mapper) (ops.map fun o => match o with | .inl g => MOp.reload g | .inr q => MOp.req q) =
+      histServe cur ops := by
+  induction ops generalizing cur with
+  | nil => rfl
+  | cons o rest ih =>
+    cases o with
+    | inl g => simp only [List.map_cons, mapServe, histServe]; exact ih g
+    | inr q => simp only [List.map_cons, mapServe, histServe, serveMap_hmapOf]; rw [ih cur]
+
+private def mA : HGen :=
+  { rules := { cfg := { rules := [{ host := "a.com", paths := [{ path := "/x", backend := "p1" }] }] }, filters := [] },
+    options := { xForwardedFor := false }, mapper := { tag := "S0", backends := ["p1"] } }
+private def mq : HReq :=
+  { q := { host := "a.com", hostNoPort := "a.com", method := "GET", path := "/x", hdr := [], ip := "10.0.0.1" }, xffIn := "", xffContains := false }
+
+/-- Contrast (seeded change C11-m6, replayed on the real code by the `muxhist` harness): with the
+handler pinned next to the route, a request repeated after the pipeline was updated still runs the
+old generation, after a delete it is still answered instead of 503, after re-creation it still uses
+the first generation; the per-request lookup gives the new handler / 503 / the re-created one. -/
+theorem pinned_handler_goes_stale :
+    (mapServeImpl true (emptyGen "") [] [] [.reload mA, .req mq, .set "p1" "G1:p1", .req mq, .del "p1", .req mq,
+        .set "p1" "G2:p1", .req mq]).map (fun o => (o.status, o.handler)) =
+      [(200, "S0:p1"), (200, "S0:p1"), (200, "S0:p1"), (200, "S0:p1")] ∧
+    (mapServe (emptyGen "") [] [.reload mA, .req mq, .set "p1" "G1:p1", .req mq, .del "p1", .req mq,
+        .set "p1" "G2:p1", .req mq]).map (fun o => (o.status, o.handler)) =
+      [(200, "S0:p1"), (200, "G1:p1"), (503, ""), (200, "G2:p1")] := by decide
+
+open EgVerif.Gen in
+/-- Regenerated: `serveHTTP` asks the mux mapper directly, in a top-level statement (on every request
+that has a route, cache hit or miss), and the cached `route` struct has no field that could hold a
+handler. -/
+theorem serveHTTP_resolves_handler_per_request :
+    FactsC11.serveHTTPGetHandlerTopLevel = 1 ∧ FactsC11.serveHTTPGetHandlerCalls = 1 ∧
+      FactsC11.routeHandlerHolderFields = [] ∧ FactsC11.routeFields ≠ [] := by decide
+
 /-! ## Regenerated facts (the tie for the atomicity assumptions of Part 1 and the kind list of Part 3) -/
 
 open EgVerif.Gen in
